@@ -375,6 +375,12 @@ def run(chk, repo):
         fb = list(fl_.body)
         ext = fb[-1] if fb and isinstance(fb[-1], ast.If) and not fb[-1].orelse else None
         after = kb[kb.index(fl_) + 1:]
+        brk = [i_ for i_, s_ in enumerate(fb) if isinstance(s_, ast.If) and not s_.orelse and len(s_.body) == 1
+               and isinstance(s_.body[0], ast.Break) and same_cond(norm_cmp(s_.test), parse_cond("m >= order"))]
+        if len(brk) == 1 and not (ext is not None and same_cond(norm_cmp(ext.test), parse_cond("m < order"))):
+            # step ; if m >= order: break ; extend the basis   - the extension is what follows the break
+            ext = ast.If(test=ast.parse("m < order", mode="eval").body, body=fb[brk[0] + 1:], orelse=[])
+            fb = fb[:brk[0]] + [ext]
         chk.require(ext is not None and same_cond(norm_cmp(ext.test), parse_cond("m < order")),
                     "lpc.kcovar: counted loop without the 'm < order' extension guard")
         # the same statements as the open-ended loop, in its order: step, termination, extension, increment
